@@ -5,7 +5,10 @@ add_explicit_hydrogens) are hand-modelled in theories/Hydro/Hydrogens.v over a v
 tools/gen_hydro.py obtains by CALLING the installed pysmiles on every run.  The model is compared on
 every run with the real call of rebuild_h_atoms made inside a real resolve_all() / sample(): the
 harness wraps the function (no change to /repo), records the molecule when it is entered, the state
-right after pysmiles' correct_aromatic_rings (the transcript) and the molecule when it returns.
+right after pysmiles' correct_aromatic_rings and the molecule when it returns.  correct_aromatic_rings /
+dekekulize are modelled as well (theories/Hydro/Aromatic.v): from the entered molecule and two recorded answers of
+networkx' enumeration (the kekulisation matching, the rings dekekulize marked) the model computes the state after
+the step, which must equal the recorded one.
 The property's clauses (theories/Hydro/HydroCheck.v) are evaluated in Coq on the molecule the
 IMPLEMENTATION finally returns."""
 import copy
@@ -519,9 +522,22 @@ def chiral_case(rng):
     return '{[#A]|%d}.{#A=%sC(%s)C%s}' % (n, left, unit if not unit.startswith('[C@') else 'C', right)
 
 
+def layered_string(rng):
+    """three or more levels ({base}.{coarse fragments}...{atom fragments}): the hydrogens are completed once, after the
+    last level, on a molecule whose bonds come from descriptors of several levels (generator shared with C06 / C10)"""
+    import molgen
+    for _ in range(200):
+        c = molgen.layered_case(rng, nmax=8, squash=(rng.random() < 0.3))
+        if c is not None and not c.get('coarse_last'):
+            return c['layered']
+    return '{[#X][#Y]}.{#X=[#a][#b][$],#Y=[$][#b][#c]}.{#a=CC[$],#b=[$]CO[$],#c=[$]CN}'
+
+
 def gen_case(rng):
     if rng.random() < 0.05:
         return {'kind': 'resolve', 'cls': 'chiral', 's': chiral_case(rng), 'legacy': True}
+    if rng.random() < 0.05:
+        return {'kind': 'resolve', 'cls': 'layered', 's': layered_string(rng), 'legacy': True}
     if rng.random() < 0.09:
         if rng.random() < 0.2:
             c = dict(rng.choice(EZ_SAMPLER))
@@ -890,7 +906,8 @@ class C09(common.Prop):
     technique = ('Coq proof (arithmetic over half-unit bond orders from the well-formedness of the valence table that '
                  'is regenerated by calling pysmiles; fold invariants of hydrogen attachment and attribute inheritance) '
                  '+ per-run correspondence of the hand-written rebuild_h_atoms model with the real call inside '
-                 'resolve_all()/sample(), pysmiles\' aromaticity correction entering as a recorded transcript')
+                 'resolve_all()/sample(); pysmiles\' aromaticity correction is modelled too (Hydro/Aromatic.v), only the '
+                 'matching networkx returns and the rings dekekulize marks enter as transcripts under enforced contracts')
     vo_deps = ['theories/Hydro/HydroCheck.vo']
     prop_file = 'theories/Properties/C09.v'
     case_requires = ('From Coq Require Import String.\nFrom Coq Require Import List Ascii ZArith Bool.\nFrom Coq Require Import Floats.PrimFloat.\n'
